@@ -4,6 +4,8 @@ import (
 	"bytes"
 	"fmt"
 	"math"
+	"strconv"
+	"strings"
 
 	simdjson "github.com/minio/simdjson-go"
 
@@ -127,7 +129,12 @@ func c10Body(w *W) {
 			}
 		}
 	}
-	forEachStdDoc(w, func(name string, text []byte) { doc("C10-"+name, text, false) })
+	forEachStdDoc(w, func(name string, text []byte) {
+		if strings.HasPrefix(name, "tree/") && name != "tree/compact" && name != "tree/lf+tab" {
+			return // marshalled output does not depend on the input's white space: two layouts suffice
+		}
+		doc("C10-"+name, text, false)
+	})
 	forEachNDInput(w, func(name string, text []byte) { doc("C10-nd-"+name, text, true) })
 
 	// (b) strings containing every byte that needs escaping, and every UTF-8 length class
@@ -138,11 +145,40 @@ func c10Body(w *W) {
 			continue
 		}
 		esc := fmt.Sprintf(`\u%04x`, b)
-		for _, s := range []string{esc, esc + "tail", "head" + esc, "he" + esc + "ad" + esc, "é" + esc + "€😀"} {
+		for _, s := range []string{esc, esc + "tail", "head" + esc, "he" + esc + "ad" + esc, "é" + esc + "€😀" + `\u20ac\ud83d\ude00`} {
 			text := []byte(`["` + s + `",{"` + s + `":"` + s + `"}]`)
 			w.res.Transitions++
 			doc("C10-escapes", text, false)
 		}
+	}
+
+	// (b2) float values from the C18 boundary set, as parsed literals
+	w.Note("float documents: 2^e and 10^e for every exponent with both neighbours, 16 values per document, spelled with 17 significant digits")
+	var fvals []float64
+	for e := -1074; e <= 1023; e++ {
+		f := math.Ldexp(1, e)
+		fvals = append(fvals, f, math.Nextafter(f, 0), math.Nextafter(f, math.Inf(1)))
+	}
+	for e := -323; e <= 308; e++ {
+		f, _ := strconv.ParseFloat("1e"+strconv.Itoa(e), 64)
+		fvals = append(fvals, f, math.Nextafter(f, 0), math.Nextafter(f, math.Inf(1)), -f)
+	}
+	for i := 0; i < len(fvals); i += 16 {
+		w.res.States++
+		if !w.Mine() {
+			continue
+		}
+		var sb strings.Builder
+		sb.WriteByte('[')
+		for j := i; j < i+16 && j < len(fvals); j++ {
+			if j > i {
+				sb.WriteByte(',')
+			}
+			sb.WriteString(strconv.FormatFloat(fvals[j], 'e', 17, 64))
+		}
+		sb.WriteByte(']')
+		w.res.Transitions++
+		doc("C10-floats", []byte(sb.String()), false)
 	}
 
 	// (c) every state of the edit/delete history graph
